@@ -50,7 +50,28 @@ VGffPick(ev) ==
                    Ok(o[2][2] = GffPick(attrs, GffTypePrio), "gff3-priority:gene-biotype"),
                    Ok(o[2][3] = GffPick(attrs, GffIdPrio), "gff3-priority:gene-id") >>)
 
-Verdict(ev) == CASE ev[1] = "gffpick" -> VGffPick(ev) [] ev[1] = "pick" -> VPick(ev) [] ev[1] = "types" -> VTypes(ev) [] ev[1] = "merge" -> VMerge(ev)
+(* ["export", kind, P, children = <<own, attrs, resultFirstOrder, resultOtherOrder>>..., PAfterFirst, PAfterOther] :
+   siblings export their qualifiers against ONE parent dictionary P (as GeneInterval.to_gff does for its isoforms), once
+   in the given order and once in the reverse order (fresh P each time).  A dictionary is <<key, <<values>>>>...;
+   attrs = <<key, value>>... are the interval's own attributes the export adds.  The result for a child is the key-wise
+   union of P, its own qualifiers and its own attributes -- a function of those three, not of the siblings nor of the
+   order -- and P is left as it was. *)
+SetOf(sq) == {sq[i] : i \in DOMAIN sq}
+KeysIn(q) == {q[i][1] : i \in DOMAIN q}
+ValsIn(q, k) == UNION {SetOf(q[i][2]) : i \in {j \in DOMAIN q : q[j][1] = k}}
+AsMap(q) == [k \in KeysIn(q) |-> ValsIn(q, k)]
+WantExport(P, own, attrs) ==
+  [k \in KeysIn(P) \cup KeysIn(own) \cup {attrs[i][1] : i \in DOMAIN attrs} |->
+     ValsIn(P, k) \cup ValsIn(own, k) \cup {attrs[i][2] : i \in {j \in DOMAIN attrs : attrs[j][1] = k}}]
+VExport(ev) ==
+  LET P == ev[3] ch == ev[4] IN
+  IF \E i \in DOMAIN ch : "!fail" \in KeysIn(ch[i][3]) \cup KeysIn(ch[i][4]) THEN "export:fails"
+  ELSE IF AsMap(ev[5]) # AsMap(P) \/ AsMap(ev[6]) # AsMap(P) THEN "export:parent-dictionary-changed"
+  ELSE IF \E i \in DOMAIN ch : AsMap(ch[i][3]) # AsMap(ch[i][4]) THEN "export:depends-on-sibling-order"
+  ELSE IF \E i \in DOMAIN ch : AsMap(ch[i][3]) # WantExport(P, ch[i][1], ch[i][2]) THEN "export:key-wise-union"
+  ELSE "ok"
+
+Verdict(ev) == CASE ev[1] = "export" -> VExport(ev) [] ev[1] = "gffpick" -> VGffPick(ev) [] ev[1] = "pick" -> VPick(ev) [] ev[1] = "types" -> VTypes(ev) [] ev[1] = "merge" -> VMerge(ev)
                  [] ev[1] = "perm" -> VPerm(ev) [] OTHER -> "unknown-op"
 Bad == {i \in DOMAIN Trace : Verdict(Trace[i]) # "ok"}
 ASSUME \A i \in Bad : PrintT(<<"BAD", i, Verdict(Trace[i])>>)
